@@ -15,9 +15,9 @@ _SYNC = st.tuples(st.sampled_from(['release', 'release', 'acquire', 'file']),
 _FINE = st.tuples(st.sampled_from(['line', 'any']), st.one_of(st.integers(1, 60), st.integers(1, 450)), st.integers(0, 3))
 # ... of one particular lock (named by the class that created it): 'after the 2nd release of the file pool's lock'
 _NAMED = st.tuples(st.tuples(st.sampled_from(['release', 'release', 'acquire']),
-                             st.sampled_from(['FilePool', 'FilePool', 'FileStorage', 'MVCCAdapterInstance', 'MVCCAdapter', 'DB',
-                                              'MappingStorage', 'DemoStorage'])).map(':'.join),
-                   st.integers(1, 12), st.integers(0, 3))
+                             st.sampled_from(['FilePool', 'FilePool', 'FileStorage', 'FileStorage', 'MVCCAdapterInstance',
+                                              'MVCCAdapterInstance', 'MVCCAdapter', 'DB', 'MappingStorage', 'DemoStorage'])).map(':'.join),
+                   st.one_of(st.integers(1, 4), st.integers(1, 12)), st.integers(0, 3))
 _SEGMENTS = st.fixed_dictionaries({'segments': st.lists(st.one_of(_SYNC, _NAMED, _NAMED, _FINE).map(list), min_size=1, max_size=14)})
 SCHEDULE = st.one_of(_DENSE, _SEGMENTS, _SEGMENTS)
 
@@ -41,7 +41,13 @@ def program_strategy(role):
         op = st.one_of(st.tuples(st.just('new_oid')), st.tuples(st.just('new_oid')), st.tuples(st.just('add_commit')))
     else:
         raise ValueError(role)
-    return st.lists(op.map(list), min_size=2, max_size=8)
+    free = st.lists(op.map(list), min_size=2, max_size=8)
+    if role == 'reader':
+        # the same object read in consecutive transactions (stale cache entries show up in the later ones)
+        again = st.tuples(name, st.sampled_from(['begin', 'commit']), st.booleans()).map(
+            lambda t: [['read', t[0]], [t[1]], ['read', t[0]], [t[1]], ['read', t[0]]] + ([['readall']] if t[2] else []))
+        return st.one_of(free, free.map(list), again)
+    return free
 
 
 class ThreadRun:
